@@ -186,6 +186,42 @@ def golden_reprs(ctx, root):
                      'earlier key are orphaned', case, {'now': got, 'reference': line['expect']})
 
 
+def module_group_probe(ctx, root):
+    """module-derived groups come from the MODULE NAME (`ModuleTask`: last component, `DoubleModuleTask`: last two) — not from the name or
+    place of the source file: a module loaded under another name than its file's, or from a checkout directory with another name, keeps
+    the directory its results were stored in under release 1.4.0"""
+    import importlib.util
+    import sys
+    from taskchain import Config
+    src = ("from taskchain import ModuleTask, DoubleModuleTask\n\n"
+           "class Stage(ModuleTask):\n    def run(self) -> int:\n        return 1\n\n"
+           "class Deep(DoubleModuleTask):\n    def run(self) -> int:\n        return 2\n")
+    for k, (modname, relpath) in enumerate([('pipelines.features', 'checkout_a/impl_v2.py'), ('features', 'other-dir/features_impl.py'),
+                                            ('proj.pipelines.features', 'x/features.py')]):
+        f = root / 'modgrp' / relpath
+        f.parent.mkdir(parents=True, exist_ok=True)
+        f.write_text(src)
+        spec_ = importlib.util.spec_from_file_location(modname, f)
+        mod = importlib.util.module_from_spec(spec_)
+        sys.modules[modname] = mod
+        try:
+            spec_.loader.exec_module(mod)
+            ch = Config(root / 'modgrp' / f'data{k}', name='c', data={'tasks': [mod.Stage, mod.Deep]}).chain()
+            parts = modname.split('.')
+            want = {'stage': parts[-1] + ':stage', 'deep': ':'.join(parts[-2:]) + ':deep'}
+            got = {t.slugname.split(':')[-1]: t.slugname for t in ch.tasks.values()}
+            case = {'probe': 'module-derived group', 'module': modname, 'file': relpath}
+            ctx.case(case); ctx.count('module-group-probe')
+            if got != want:
+                ctx.fail('the group of a module task (hence the directory of its results) is not derived from the module name', case,
+                         {'now': got, 'reference': want})
+            dirs = {n: str(t.data_path.parent.relative_to(root / 'modgrp' / f'data{k}')) for n, t in ch.tasks.items()}
+            if dirs != {v: v.replace(':', '/') for v in want.values()}:
+                ctx.fail('results of a module task are not under <group levels>/<task name>', case, dirs)
+        finally:
+            sys.modules.pop(modname, None)
+
+
 def run(ctx, generated_only=False):
     from tcv.quiet import quiet
     quiet()
@@ -272,6 +308,7 @@ def run(ctx, generated_only=False):
     if not generated_only:
         golden_objects(ctx, root)
         golden_reprs(ctx, root)
+        module_group_probe(ctx, root)
     # ---- sha256 of the driver vs hashlib
     import hashlib
     texts = [o['text'] for o in out if 'text' in o][:2000]
